@@ -23,6 +23,8 @@ fn histories(seed: u64, nrandom: usize) -> Vec<Vec<(usize, FftDirection)>> {
         vec![47, 94, 719, 1438, 96, 2048, 1536],
         vec![1, 2, 3, 0, 9, 10, 20, 60, 120],
         vec![1201, 1200, 2402, 600, 300],
+        vec![11, 37, 41, 407, 451, 1517, 74, 111, 82, 59, 649],
+        vec![83, 166, 107, 214, 167, 1031, 59, 118, 149],
     ];
     let mut hs = vec![];
     for pool in &pools {
